@@ -663,11 +663,13 @@ func (c *lchain) process(b types.Block, bs consensus.V1BlockSupplement, apply bo
 	}
 	c.want = append(c.want, hx(uint64(natt)))
 	// the ID discipline of Ledger/Kinds.v, computed here from the typed IDs and by the model from the block it parsed
-	c.want = append(c.want, hbool(kindsOK), hbool(freshOK))
-	if freshOK {
-		r.count("siacoin-ids-fresh")
-	} else {
-		r.count("siacoin-ids-reused")
+	c.want = append(c.want, hbool(kindsOK), hbool(freshOK[0]), hbool(freshOK[1]), hbool(freshOK[2]))
+	for i, name := range []string{"siacoin", "siafund", "v2-contract"} {
+		if freshOK[i] {
+			r.count(name + "-ids-fresh")
+		} else {
+			r.count(name + "-ids-reused")
+		}
 	}
 	if kindsOK {
 		r.count("ids-name-one-kind")
